@@ -411,6 +411,20 @@ class Interp:
             axis = int(self.get(values, ins[0]).flatten()[0])
             x = self.get(values, ins[1])
             return list(np.split(x, opts["NumSplits"], axis=axis))
+        if code == "LEAKY_RELU" and T[ins[0]]["dtype"] == "int16" and ot["dtype"] == "int16":
+            # reference_ops::QuantizeLeakyRelu: identity and alpha multipliers
+            it = T[ins[0]]
+            x = self.get(values, ins[0]).astype(I64)
+            si, zi = qparams(it)
+            so, zo = qparams(ot)
+            lo, hi = dtype_range("int16")
+            alpha = float(np.float32(opts.get("Alpha", 0.0)))
+            m1, e1 = tflref.quantize_multiplier(float(si[0]) / float(so[0]))
+            m2, e2 = tflref.quantize_multiplier(float(si[0]) * alpha / float(so[0])) if alpha != 0 else (0, 0)
+            xv = x - int(zi[0])
+            if alpha < 0:
+                raise Unsupported("LEAKY_RELU int16 with negative alpha")
+            return [np.clip(np.where(xv >= 0, vec_mbqm(xv, m1, e1), vec_mbqm(xv, m2, e2)) + int(zo[0]), lo, hi)]
         if code in ("LOGISTIC", "TANH", "HARD_SWISH", "LEAKY_RELU"):
             # 8-bit activations are table driven in the reference; the table is what defines the function
             it = T[ins[0]]
